@@ -69,6 +69,11 @@ def generate(family, rng, tier, force=None):
             idx += 1
         n_locs = 4 * (1 << p["csr_address_width"]) // p["csr_paging"]
         # fixed locations include the upper half of the CSR address space (only reachable when every hop keeps the full address width)
+        if len(regs) >= 2 and rng.random() < 0.3:
+            # registers pinned at fixed positions inside their bank (n=), leaving a gap that the bank fills with a reserved placeholder
+            regs[-1]["n"] = len(regs) + rng.choice([0, 1, 2])
+            if rng.random() < 0.5:
+                regs[0]["n"] = 0
         periphs.append({"name": "per%d" % k, "regs": regs, "loc": rng.choice([None, None, 5 + k, 9 + k, n_locs // 2 + 1 + k, n_locs - 1 - k])})
         # interrupt of the peripheral (a level event source behind an EventManager): none, automatic or a fixed number
         # a memory mapped into the CSR space (its own window): small, not a power of two, half a CSR page, exactly one CSR page
@@ -147,9 +152,9 @@ def _run(scn, d):
         def __init__(self, spec):
             for r in spec["regs"]:
                 if r["kind"] == "storage":
-                    o = CSRStorage(r["size"], name=r["name"])
+                    o = CSRStorage(r["size"], name=r["name"], n=r.get("n"))
                 else:
-                    o = CSRStatus(r["size"], name=r["name"])
+                    o = CSRStatus(r["size"], name=r["name"], n=r.get("n"))
                 setattr(self, "_" + r["name"], o)
                 objs["%s_%s" % (spec["name"], r["name"])] = (r, o)
             if spec.get("mem_depth"):
